@@ -22,7 +22,9 @@ EXTRA_TOKENS = ["%41", "a%2Fb", "%7E0", "%", "", "01", "-1", "-0", "10", "1_0", 
 DOCS = [{"a": {"b": [1, 2]}, "0": "zero", "1": [10, 20, {"a": 5}], "": {"": 7}, "~": {"/": 8}, "/": 9, "+1": 1, "-1": [3],
          "01": 4, " ": 5, "#": 6, "é": [0], "a/b": {"m~n": 1}},
         [[0, 1, [2, 3]], {"a": [4]}, "s", 5],
-        {"0": [{"0": [1]}]}]
+        {"0": [{"0": [1]}]},
+        # members named like the non-standard key tokens NEXT TO the members those tokens would name
+        {"#a": 1, "a": 2, "~a": {"#a": 3, "a": 4}, "#": 5, "": 7, "~": [8], "#0": 9, "0": {"#0": 10, "0": 11}, "~0a": 12, "0a": 13}]
 
 
 def unesc(t):
